@@ -114,6 +114,8 @@ func cmdRun(args []string) int {
 	oblig := fs.String("oblig", "", "run a registered obligation (all its configs of the tier)")
 	tier := fs.String("tier", "quick", "")
 	rat := fs.Bool("rat", false, "rational float abstraction")
+	gfsum := fs.Bool("gfsum", false, "summarise GaloisField.Multiply by the reference product")
+	tlimit := fs.Duration("tl", 0, "time limit per instance")
 	fs.Parse(args)
 	e, err := setup(*repo, *verif, *z3, 12)
 	defer e.close()
@@ -140,6 +142,10 @@ func cmdRun(args []string) int {
 			v, _ := strconv.Atoi(p[1])
 			inst.Config[p[0]] = v
 		}
+		inst.TimeLimit = *tlimit
+		if *gfsum {
+			inst.Redirect = map[string]string{"(*github.com/boombuler/barcode/utils.GaloisField).Multiply": "utils:VPGFMulSummary"}
+		}
 		insts = append(insts, inst)
 	}
 	rc := 0
@@ -152,6 +158,15 @@ func cmdRun(args []string) int {
 			fmt.Println("  INCONCLUSIVE:", x)
 			rc = 2
 		}
+		if d := os.Getenv("VP_DUMP"); d != "" {
+			n := 0
+			for _, vr := range res.Results {
+				if vr.Script != "" {
+					os.WriteFile(fmt.Sprintf("%s/vc-%s-%d.smt2", d, vr.Result, n), []byte(vr.Script), 0o644)
+					n++
+				}
+			}
+		}
 		for _, vi := range v.Violations {
 			fmt.Printf("  VIOLATION-CANDIDATE: %s %q at %s inputs=%v\n", vi.Kind, vi.Label, vi.Pos, vi.Inputs)
 			rc = 1
@@ -162,6 +177,11 @@ func cmdRun(args []string) int {
 		fmt.Println("  covers:", res.CoverHit, "leak-notes:", len(res.Notes), "global-writes:", len(res.WriteLog))
 		for _, w := range res.WriteLog {
 			fmt.Println("  write:", w)
+		}
+		if os.Getenv("VP_ABORTS") != "" {
+			for k, n := range res.AbortReasons {
+				fmt.Printf("  abort %6d %s\n", n, k)
+			}
 		}
 	}
 	return rc
